@@ -114,6 +114,30 @@ GRV_CMD(tags) {
             }
             if (!gr_face_find_fref(face, id)) { vj::W w; w.i("feat", id); report_fail("C20", "find_fref does not find a listed feature id", w.done()); }
         }
+        // tags the font does not have, short ones in both paddings and both orders, after a successful lookup:
+        // the two forms must select the same thing (nothing), whatever was asked before
+        {
+            const gr_uint32 absent[] = {0x7A7A3900u /*zz9*/, 0x71710000u /*qq*/, 0x78000000u /*x*/, 0x7A7A3921u /*zz9!*/};
+            for (gr_uint32 t : absent) {
+                if (gr_face_find_fref(face, t) || gr_face_find_fref(face, spacepad(t))) continue;       // the font has it after all
+                for (int order = 0; order < 2; ++order) {
+                    set_case("tags absent feat 0x%08X order=%d font=%s", t, order, argv[i]);
+                    if (!feats.empty()) gr_face_find_fref(face, feats[order % feats.size()]);
+                    const gr_feature_ref *r1 = gr_face_find_fref(face, order ? t : spacepad(t));
+                    const gr_feature_ref *r2 = gr_face_find_fref(face, order ? spacepad(t) : t);
+                    if (r1 != r2 || r1) { vj::W w; w.i("feat", t).i("order", order).str("font", argv[i]); report_fail("C20", "space-padded and zero-padded forms of a feature tag the font does not have select different things", w.done()); }
+                    ++padprobes;
+                }
+                for (int order = 0; order < 2; ++order) {
+                    gr_feature_val *a = gr_face_featureval_for_lang(face, order ? t : spacepad(t)), *b = gr_face_featureval_for_lang(face, order ? spacepad(t) : t);
+                    for (unsigned k = 0; k < gr_face_n_fref(face); ++k) {
+                        const gr_feature_ref *r = gr_face_fref(face, gr_uint16(k));
+                        if (gr_fref_feature_value(r, a) != gr_fref_feature_value(r, b)) { vj::W w; w.i("lang", t).str("font", argv[i]); report_fail("C20", "space-padded and zero-padded forms of an unknown language tag select different feature values", w.done()); break; }
+                    }
+                    gr_featureval_destroy(a); gr_featureval_destroy(b); ++padprobes;
+                }
+            }
+        }
         // script tags on gr_make_seg: same segment for zero-/space-padded script
         const gr_uint32 scripts[] = {0, 0x6C61746Eu /*latn*/, 0x6D796D00u, 0x61720000u, 0x7A000000u};
         const char *txt = "abc \xE1\x80\x80\xE1\x80\xB1 test";
